@@ -352,6 +352,21 @@ class ResetInterp:
                 return ('none',)
             return None
         if isinstance(c, ast.Compare) and len(c.ops) == 1 and isinstance(c.ops[0], ast.NotIn) \
+                and isinstance(c.comparators[0], ast.Call) and \
+                isinstance(c.comparators[0].func, ast.Name) and \
+                c.comparators[0].func.id in ('tuple', 'list', 'set', 'frozenset') and \
+                len(c.comparators[0].args) == 1 and not c.comparators[0].keywords:
+            # membership in a collection made of a collection is membership in that one
+            return self._exclusion(ast.Compare(c.left, c.ops, [c.comparators[0].args[0]]),
+                                   pv, cx)
+        if isinstance(c, ast.Compare) and len(c.ops) == 1 and isinstance(c.ops[0], ast.NotIn) \
+                and isinstance(c.comparators[0], ast.IfExp) and \
+                isinstance(c.comparators[0].test, ast.Name) and \
+                cx.flags.get(c.comparators[0].test.id) in (True, False):
+            t_ = c.comparators[0]
+            return self._exclusion(ast.Compare(
+                c.left, c.ops, [t_.body if cx.flags[t_.test.id] else t_.orelse]), pv, cx)
+        if isinstance(c, ast.Compare) and len(c.ops) == 1 and isinstance(c.ops[0], ast.NotIn) \
                 and src(c.left) == pv and (
                     isinstance(c.comparators[0], (ast.List, ast.Tuple, ast.Set)) or
                     (isinstance(c.comparators[0], ast.Name) and
@@ -510,6 +525,25 @@ class ResetInterp:
 
     def assign(self, tg: ast.AST, val: ast.AST, s: ast.stmt, cx: Ctx, f: Func, rest):
         vs = src(val)
+        # `tuple(X)` / `list(X)` / `set(X)` / `frozenset(X)` of a short literal collection (or
+        # of a local that names one) is that collection, for membership tests
+        if isinstance(tg, ast.Name) and isinstance(val, ast.Call) and \
+                isinstance(val.func, ast.Name) and \
+                val.func.id in ('tuple', 'list', 'set', 'frozenset') and len(val.args) == 1 \
+                and not val.keywords:
+            inner = val.args[0]
+            if isinstance(inner, ast.Name) and f'display:{inner.id}' in cx.env:
+                inner = cx.env[f'display:{inner.id}']
+            if isinstance(inner, ast.IfExp) and isinstance(inner.test, ast.Name) and \
+                    cx.flags.get(inner.test.id) in (True, False):
+                inner = inner.body if cx.flags[inner.test.id] else inner.orelse
+            if isinstance(inner, (ast.List, ast.Tuple, ast.Set)) and len(inner.elts) <= 1:
+                val = inner
+        if isinstance(tg, ast.Name) and isinstance(val, ast.IfExp) and \
+                isinstance(val.test, ast.Name) and cx.flags.get(val.test.id) in (True, False):
+            alt = val.body if cx.flags[val.test.id] else val.orelse
+            if isinstance(alt, (ast.List, ast.Tuple, ast.Set)) and len(alt.elts) <= 1:
+                val = alt
         if isinstance(tg, ast.Name) and isinstance(val, (ast.List, ast.Tuple, ast.Set)) and \
                 len(val.elts) <= 1:
             # a short literal collection (`exclude = [state.agent.position]`): kept as written
